@@ -129,7 +129,13 @@ func TestProp(t *testing.T) {
 		shrink = "5m"
 	}
 	flag.Set("rapid.shrinktime", shrink)
-	flag.Set("rapid.checks", "50")
+	// slow engines (real SQLite, WebSocket sessions, fault enumeration): fewer
+	// runs per rapid.Check call so that the wall-clock budget is honoured
+	checks := map[string]string{"C06": "10", "C14": "4", "C16": "20", "C12": "10", "C13": "10"}[*fProp]
+	if checks == "" {
+		checks = "50"
+	}
+	flag.Set("rapid.checks", checks)
 
 	var failClass string
 	var lastFail *ReplayFile
